@@ -498,9 +498,11 @@ pub struct HostCase {
     pub instance: HostileReply,
 }
 
-pub const CONTENT_TYPES: &[&str] = &[
-    "application/json; charset=utf-8", "text/xml; charset=utf-8", "text/xml; charset=utf-16", "application/json; charset=utf-16", "text/plain", "application/octet-stream",
-    "text/xml; charset=utf-32", "", "TEXT/XML; CHARSET=UTF-16", "application/json",
+pub const CONTENT_TYPES: &[&[u8]] = &[
+    b"application/json; charset=utf-8", b"text/xml; charset=utf-8", b"text/xml; charset=utf-16", b"application/json; charset=utf-16", b"text/plain", b"application/octet-stream",
+    b"text/xml; charset=utf-32", b"", b"TEXT/XML; CHARSET=UTF-16", b"application/json",
+    // not visible ASCII: obs-text bytes are legal in a field value (RFC 9110 5.5) and reach the agent's parser as they are
+    b"text/xml; charset=utf-16; x=\xe9\xff", b"\xfftext/plain",
 ];
 
 pub fn hostile_reply(base: impl Strategy<Value = u8>) -> impl Strategy<Value = HostileReply> {
@@ -581,14 +583,14 @@ fn build_reply(r: &HostileReply) -> (ResponseSpec, bool) {
     let ct = CONTENT_TYPES[r.content_type as usize % CONTENT_TYPES.len()];
     let mut spec = ResponseSpec::status(r.status, &bytes);
     if !ct.is_empty() {
-        spec = spec.with_header("Content-Type", ct);
+        spec.headers.push(("Content-Type".to_string(), ct.to_vec()));
     }
     if r.chunked {
         spec.framing = RespFraming::Chunked(r.pieces.clone());
     }
     spec.pieces = r.pieces.clone();
     spec.pause_us = r.pause_us;
-    (spec, interesting || (r.encoding % 3 != 0 && ct.to_lowercase().contains("utf-16")))
+    (spec, interesting || (r.encoding % 3 != 0 && String::from_utf8_lossy(ct).to_lowercase().contains("utf-16")))
 }
 
 pub fn eval_host(rig: &KeeperRig, agent: &crate::keeper::Agent, case: &HostCase, stats: &mut Stats) -> Outcome {
